@@ -3,7 +3,7 @@
 import subprocess, sys, os, shutil, json, re
 import os as _os
 SRC=_os.environ.get("SELFTEST_SRC","/repo"); DST="/tmp/w-client-m"
-def run(prop, name, edits=None, reverse=None):
+def run(prop, name, edits=None, reverse=None, patch=None):
     shutil.rmtree(DST, ignore_errors=True)
     shutil.copytree(SRC, DST, ignore=shutil.ignore_patterns(".git"))
     if edits:
@@ -12,6 +12,10 @@ def run(prop, name, edits=None, reverse=None):
             if s.count(old)!=1:
                 print(f"{name}: EDIT DOES NOT APPLY ({s.count(old)} matches) {old[:50]!r}"); shutil.rmtree(DST); return
             open(p,"w").write(s.replace(old,new))
+    if patch:
+        r=subprocess.run(["patch","-p1","-s","-d",DST,"-i",patch],capture_output=True,text=True)
+        if r.returncode!=0:
+            print(f"{name}: PATCH FAILED {r.stdout} {r.stderr}"); shutil.rmtree(DST); return
     if reverse:
         r=subprocess.run(["patch","-R","-p1","-s","-d",DST,"-i",reverse],capture_output=True,text=True)
         if r.returncode!=0:
